@@ -1,15 +1,19 @@
 (* C01 -- table-level refinement for the OpenN1 / Open8 bucket kinds: one generation as an ARRAY OF BYTE BUCKETS.
    The generation is `bt : bucket index -> mData[0..maxCount]` (the real bytes: short hashes in Bounds order, state byte,
-   max-probe byte); the loops of HashSet::pvFind / pvAddNogrow and the per-bucket Remove are run ON THE REGENERATED LEAVES
-     Gen_OpenN1_ops.IsFull / WasFull / AddCrt / Remove, Gen_OpenN1.GetMaxProbe / UpdateMaxProbe, ptCalcShortHash
-   (the in-bucket search is BucketFind.find_sh over the byte slots; the item arrays are read for key comparison only where
-   a byte matched), and are proved to do, step for step, what the hand model's tfind / tadd / tremove (HashModel.v,
-   instantiated as in HashInst.step_cfg) do on list buckets, under the representation relation `trep`.  `trep` holds for
-   an empty generation and is preserved by every insertion and removal, so it holds along every history of one generation. *)
+   max-probe byte).  BOTH the loops and their leaves are regenerated from the headers on every run:
+     HashSet::pvFind(indexCode, buckets, pred)  = Gen_HSFindIn.pvFindIn   (config copied from props/C12)
+     HashSet::pvAddNogrow                       = Gen_HSAdd.pvAddNogrow   (config copied from props/C11)
+   with their bucket primitives instantiated by Gen_OpenN1_ops.IsFull / WasFull / AddCrt / Remove, Gen_OpenN1.GetMaxProbe /
+   UpdateMaxProbe, ptCalcShortHash on the bucket's bytes (the in-bucket search Bucket::Find is BucketFind.find_sh over the byte
+   slots -- hand-written filter loop; the item arrays are read for key comparison only where a byte matched).  They are proved
+   to do what the hand model's tfind / tadd / tremove (HashModel.v, instantiated as in HashInst.step_cfg) do on list buckets,
+   under the representation relation `trep`, which holds for an empty generation and is preserved by every insertion and
+   removal, so it holds along every history of one generation.  Hand-written here: only the sequencing "AddCrt on the chosen
+   bucket, then UpdateMaxProbe(probe) on the start bucket" after the generated pvAddNogrow returned (bucket, probe). *)
 From Coq Require Import ZArith List Lia Bool.
 From MomoCommon Require Import GenPrelude.
 From C01 Require Import HashModel ListAux HashInst BucketFind OpenN1Ops Glue.
-From C01 Require Gen_OpenN1_ops Gen_OpenN1 OpenN1_Proofs.
+From C01 Require Gen_OpenN1_ops Gen_OpenN1 OpenN1_Proofs Gen_HSAdd Gen_HSFindIn.
 Import ListNotations.
 Local Open Scope Z_scope.
 
@@ -52,44 +56,30 @@ Section TableN1.
   Definition gbfind (t : table BS) (bt : bytes) (idx k : Z) : option (option (nat * Z)) :=
     find_sh (slots_of maxCount reverse (bt idx)) (items (getbH t idx)) (shG (h k)) k 0.
 
-  (* pvFind: for (probe = 1; bucket->WasFull() && probe <= maxProbe; ++probe) *)
-  Fixpoint gprobe_loop (n : nat) (t : table BS) (bt : bytes) (k probe idx : Z) : option (option (Z * nat * Z)) :=
-    match n with
-    | O => Some None
-    | S n' =>
-      if WasFullG (bt idx) then
-        let idx' := next idx (2 ^ tlog t) probe in
-        match gbfind t bt idx' k with
-        | None => None
-        | Some (Some (pos, v)) => Some (Some (idx', pos, v))
-        | Some None => gprobe_loop n' t bt k (probe + 1) idx'
-        end
-      else Some None
-    end.
+  (* HashSet::pvFind(indexCode, buckets, itemPred) -- start bucket, then `for (probe = 1; bucket->WasFull() && probe <= maxProbe; ++probe)` --
+     is REGENERATED (Gen_HSFindIn.pvFindIn, config copied from props/C12); its primitives are instantiated with the byte buckets:
+     a bucket handle is its index, Bucket::Find = gbfind (result encoded as an item address 1 + 8 * bucketIndex + position, 0 = null iterator),
+     WasFull / GetMaxProbe = the regenerated OpenN1 leaves on the bucket's bytes *)
+  Definition enc_pos (r : option (Z * nat * Z)) : Z := match r with None => 0 | Some (i, p, _) => 1 + i * 8 + Z.of_nat p end.
+  Definition b_findG (t : table BS) (bt : bytes) (b : Z) (_ : Z) (k : Z) (_ : Z) : Z :=
+    match gbfind t bt b k with Some (Some (pos, _)) => 1 + b * 8 + Z.of_nat pos | _ => 0 end.
+  Definition gtfind (t : table BS) (bt : bytes) (k : Z) : outcome Z :=
+    Gen_HSFindIn.pvFindIn (fun _ => 2 ^ tlog t) (fun _ => tlog t) start (fun i _ bc p => next i bc p) (b_findG t bt)
+      (fun b log => GetMaxProbeG (bt b) log) (fun b => WasFullG (bt b)) (fun _ i => i) (h k) 0 k 0.
 
-  Definition gtfind (t : table BS) (bt : bytes) (k : Z) : option (option (Z * nat * Z)) :=
-    let i0 := start (h k) (2 ^ tlog t) in
-    match gbfind t bt i0 k with
-    | None => None
-    | Some (Some (pos, v)) => Some (Some (i0, pos, v))
-    | Some None => gprobe_loop (Z.to_nat (GetMaxProbeG (bt i0) (tlog t))) t bt k 1 i0
-    end.
+  (* HashSet::pvAddNogrow -- `while (bucket->IsFull()) { ++probe; if (probe >= bucketCount) throw; bucketIndex = GetNextBucketIndex(..) }` --
+     is REGENERATED (Gen_HSAdd.pvAddNogrow, config copied from props/C11; AddCrt / UpdateMaxProbe are calls on bucket handles there: the
+     function returns the bucket index it chose and the probe it passes to UpdateMaxProbe); IsFull = the regenerated leaf on the bytes *)
+  Definition gen_addloc (log : Z) (bt : bytes) (hc : Z) : outcome (Z * Z * Z) :=
+    Gen_HSAdd.pvAddNogrow log 0 (fun b => IsFullG (bt b)) (fun i _ bc p => next i bc p) start (fun _ _ _ _ _ _ => 0) 0 (fun _ i => i)
+      (fun idx _ _ => idx) (fun _ => 2 ^ log) 0 0 0 0 0 hc 0.
 
-  (* pvAddNogrow: while (bucket->IsFull()) { ++probe; if (probe >= bucketCount) throw; bucketIndex = GetNextBucketIndex } *)
-  Fixpoint gadd_loop (n : nat) (log : Z) (bt : bytes) (probe idx : Z) : option (Z * Z) :=
-    if IsFullG (bt idx) then
-      match n with
-      | O => None
-      | S n' => gadd_loop n' log bt (probe + 1) (next idx (2 ^ log) (probe + 1))
-      end
-    else Some (idx, probe).
-
-  (* ... then bucket->AddCrt(...) on the bucket found and UpdateMaxProbe(probe) on the start bucket: bytes only *)
+  (* ... then bucket->AddCrt(...) on the bucket found and startBucket->UpdateMaxProbe(probe): the regenerated byte operations *)
   Definition gtadd (log : Z) (bt : bytes) (hc : Z) : outcome (option (Z * bytes)) :=
     let i0 := start hc (2 ^ log) in
-    match gadd_loop (Z.to_nat (2 ^ log - 1)) log bt 0 i0 with
-    | None => Ok None                                   (* "Hash table is full" *)
-    | Some (idx, probe) =>
+    match gen_addloc log bt hc with
+    | Exn => Ok None                                    (* "Hash table is full" *)
+    | Ok (idx, _, probe) =>
       match AddCrtG (bt idx) hc 0 with
       | Ok (_, d1) =>
         let bt1 := setd bt idx d1 in
@@ -99,6 +89,7 @@ Section TableN1.
         end
       | Stuck => Stuck | Fuel => Fuel | Exn => Exn
       end
+    | Stuck => Stuck | Fuel => Fuel
     end.
 
   Definition gtremove (bt : bytes) (idx : Z) (pos : nat) : outcome bytes :=
@@ -140,43 +131,95 @@ Section TableN1.
   Lemma gbfind_ok t bt idx k : trep t bt -> 0 <= idx < 2 ^ tlog t -> gbfind t bt idx k = Some (bfind k (items (getbH t idx)) 0).
   Proof. intros [_ [_ R]] Hi. destruct (R idx Hi) as [Rr _]. unfold gbfind. apply (n1_find_glue BS h maxCount reverse Hmc Hh); auto. Qed.
 
-  Lemma gprobe_ok t bt k : trep t bt -> forall n probe idx, 0 <= idx < 2 ^ tlog t ->
-    gprobe_loop n t bt k probe idx = Some (probeloopH n t k probe idx (getbH t idx)).
+  Lemma maxprobe_lt d L : 0 <= d maxCount < 256 -> 0 <= L <= 63 -> 0 <= GetMaxProbeG d L < 2 ^ 63.
   Proof.
-    intros T. induction n; intros probe idx Hi; simpl; auto.
-    destruct T as [Hl [Hlen R]]. destruct (R idx Hi) as [_ [Wf _]]. rewrite Wf. unfold Gen_OpenN1_ops.WasFull.
-    unfold bcount. set (idx' := next idx (2 ^ tlog t) probe).
-    assert (Hi' : 0 <= idx' < 2 ^ tlog t) by (apply next_range; auto).
-    rewrite (gbfind_ok t bt idx' k (conj Hl (conj Hlen R)) Hi').
-    destruct (bfind k (items (getbH t idx')) 0) as [[pos v]|]; auto.
+    intros Hd HL. change (GetMaxProbeG d L) with (OpenN1_Proofs.bound maxCount d L).
+    destruct (Z.eq_dec (d maxCount) 255) as [E|E].
+    - rewrite OpenN1_Proofs.bound_inf by auto. assert (0 < 2 ^ L) by (apply Z.pow_pos_nonneg; lia).
+      assert (2 ^ L <= 2 ^ 63) by (apply Z.pow_le_mono_r; lia). lia.
+    - rewrite OpenN1_Proofs.bound_fin by auto. pose proof (Z.mod_pos_bound (d maxCount) 8 ltac:(lia)).
+      assert (0 <= d maxCount / 8 <= 31) by (Z.div_mod_to_equations; lia).
+      assert (0 < 2 ^ (d maxCount / 8)) by (apply Z.pow_pos_nonneg; lia).
+      assert (2 ^ (d maxCount / 8) <= 2 ^ 31) by (apply Z.pow_le_mono_r; lia).
+      change (2 ^ 63) with (2 ^ 32 * 2 ^ 31). nia.
   Qed.
 
-  Theorem gtfind_refines t bt k : trep t bt -> gtfind t bt k = Some (tfindH t k).
+  Definition res1 {A C} (o : outcome (A * C)) : outcome A :=
+    match o with Ok (r, _) => Ok r | Stuck => Stuck | Fuel => Fuel | Exn => Exn end.
+  Definition enc_opt (r : option (Z * nat * Z)) : option Z := match r with None => None | Some (i, p, _) => Some (1 + i * 8 + Z.of_nat p) end.
+
+  Lemma b_findG_ok t bt idx k x y : trep t bt -> 0 <= idx < 2 ^ tlog t ->
+    b_findG t bt idx x k y = match bfind k (items (getbH t idx)) 0 with Some (pos, _) => 1 + idx * 8 + Z.of_nat pos | None => 0 end.
+  Proof. intros T Hi. unfold b_findG. rewrite (gbfind_ok t bt idx k T Hi). destruct (bfind k (items (getbH t idx)) 0) as [[pos v]|]; reflexivity. Qed.
+
+  Lemma gen_probe_ok t bt k maxProbe : trep t bt -> maxProbe + 1 < 2 ^ 64 -> forall n probe idx bi ic, 0 <= idx < 2 ^ tlog t -> 1 <= probe ->
+    Z.of_nat n = maxProbe + 1 - probe ->
+    res1 (Gen_HSFindIn.pvFindIn_loop0 (fun i _ bc p => next i bc p) (b_findG t bt) (fun b => WasFullG (bt b)) (fun _ i => i)
+            (S n) (2 ^ tlog t) 0 0 (h k) k maxProbe idx idx bi ic probe)
+    = Ok (enc_opt (probeloopH n t k probe idx (getbH t idx))).
   Proof.
-    intros T. unfold gtfind, tfind, bcount. destruct T as [Hl [Hlen R]].
+    intros T Hmp. induction n; intros probe idx bi ic Hi Hp Hn; rewrite Gen_HSFindIn.pvFindIn_loop0_eq.
+    - destruct (Z.leb_spec probe maxProbe); [lia|]. rewrite andb_false_r. reflexivity.
+    - destruct (Z.leb_spec probe maxProbe); [|lia]. unfold Gen_OpenN1_ops.WasFull at 1. cbn [andb]. cbv zeta.
+      destruct T as [Hl [Hlen R]]. destruct (R idx Hi) as [_ [Wf _]]. cbn [probe_loop]. rewrite Wf. unfold bcount.
+      set (idx' := next idx (2 ^ tlog t) probe).
+      assert (Hi' : 0 <= idx' < 2 ^ tlog t) by (apply next_range; auto).
+      rewrite (b_findG_ok t bt idx' k 0 (h k) (conj Hl (conj Hlen R)) Hi').
+      destruct (bfind k (items (getbH t idx')) 0) as [[pos v]|].
+      + destruct (Z.eqb_spec (1 + idx' * 8 + Z.of_nat pos) 0); [lia|]. reflexivity.
+      + cbn [Z.eqb negb]. rewrite (wrapU_small 64 (probe + 1)) by lia. apply IHn; auto; lia.
+  Qed.
+
+  Theorem gtfind_refines t bt k : trep t bt -> gtfind t bt k = Ok (enc_pos (tfindH t k)).
+  Proof.
+    intros T. unfold gtfind, Gen_HSFindIn.pvFindIn, tfind, bcount. cbv zeta. pose proof T as [Hl [Hlen R]].
     set (i0 := start (h k) (2 ^ tlog t)). assert (Hi : 0 <= i0 < 2 ^ tlog t) by (apply start_range; auto).
-    rewrite (gbfind_ok t bt i0 k (conj Hl (conj Hlen R)) Hi).
-    destruct (bfind k (items (getbH t i0)) 0) as [[pos v]|]; auto.
-    rewrite decode_kind. destruct (R i0 Hi) as [_ [_ [Hb _]]]. rewrite (getmax_byte _ _ (tlog t) Hb).
-    apply gprobe_ok; auto. exact (conj Hl (conj Hlen R)).
+    rewrite (b_findG_ok t bt i0 k 0 (h k) T Hi).
+    destruct (bfind k (items (getbH t i0)) 0) as [[pos v]|].
+    - destruct (Z.eqb_spec (1 + i0 * 8 + Z.of_nat pos) 0); [lia|]. reflexivity.
+    - cbn [Z.eqb negb]. rewrite decode_kind. destruct (R i0 Hi) as [_ [_ [Hb Henc]]]. rewrite <- (getmax_byte _ _ (tlog t) Hb).
+      set (mp := GetMaxProbeG (bt i0) (tlog t)). pose proof (maxprobe_lt (bt i0) (tlog t) Henc ltac:(lia)) as Hmp. fold mp in Hmp.
+      pose proof (gen_probe_ok t bt k mp T ltac:(change (2 ^ 64) with (2 * 2 ^ 63); lia) (Z.to_nat mp) 1 i0 0 (h k) Hi ltac:(lia) ltac:(lia)) as G.
+      destruct (Gen_HSFindIn.pvFindIn_loop0 _ _ _ _ _ _ _ _ _ _ _ _ _ _ _ _) as [[[r|] [[[[? ?] ?] ?] ?]]| | |]; cbn [res1] in G; try discriminate;
+        injection G as G; destruct (probeloopH (Z.to_nat mp) t k 1 i0 (getbH t i0)) as [[[i p] v]|]; cbn [enc_opt enc_pos] in *; try discriminate.
+      + injection G as G. rewrite G. reflexivity.
+      + reflexivity.
   Qed.
 
   (* ---- add ---- *)
-  Lemma gadd_loop_ok t bt : trep t bt -> forall n probe idx, 0 <= idx < 2 ^ tlog t ->
-    gadd_loop n (tlog t) bt probe idx = addloopH n t probe idx /\
-    (forall idx' probe', addloopH n t probe idx = Some (idx', probe') ->
-       0 <= idx' < 2 ^ tlog t /\ probe <= probe' <= probe + Z.of_nat n /\ isFull BS maxCount false (getbH t idx') = false).
+  Lemma addloop_facts t bt : trep t bt -> forall n probe idx, 0 <= idx < 2 ^ tlog t ->
+    forall idx' probe', addloopH n t probe idx = Some (idx', probe') ->
+       0 <= idx' < 2 ^ tlog t /\ probe <= probe' <= probe + Z.of_nat n /\ isFull BS maxCount false (getbH t idx') = false.
   Proof.
-    intros T. destruct T as [Hl [Hlen R]]. induction n; intros probe idx Hi.
-    - cbn [gadd_loop add_loop]. destruct (R idx Hi) as [Rr _]. rewrite (n1_isfull_glue BS h maxCount reverse Hmc (getbH t idx) (bt idx) Rr).
-      destruct (isFull BS maxCount false (getbH t idx)) eqn:E; (split; [reflexivity|]); intros idx' probe' H; [discriminate|].
-      inversion H; subst. split; auto. split; [lia|auto].
-    - cbn [gadd_loop add_loop]. destruct (R idx Hi) as [Rr _]. rewrite (n1_isfull_glue BS h maxCount reverse Hmc (getbH t idx) (bt idx) Rr).
-      destruct (isFull BS maxCount false (getbH t idx)) eqn:E.
-      + unfold bcount. assert (Hi' : 0 <= next idx (2 ^ tlog t) (probe + 1) < 2 ^ tlog t) by (apply next_range; auto).
-        destruct (IHn (probe + 1) _ Hi') as [A C]. split; auto. intros idx' probe' H. destruct (C idx' probe' H) as [C1 [C2 C3]].
-        split; auto. split; [lia|auto].
-      + split; auto. intros idx' probe' H. inversion H; subst. split; auto. split; [lia|auto].
+    intros T. destruct T as [Hl [Hlen R]]. induction n; intros probe idx Hi idx' probe'; cbn [add_loop];
+      destruct (isFull BS maxCount false (getbH t idx)) eqn:E; intros H; try discriminate.
+    - inversion H; subst. split; auto. split; [lia|auto].
+    - unfold bcount in H. assert (Hi' : 0 <= next idx (2 ^ tlog t) (probe + 1) < 2 ^ tlog t) by (apply next_range; auto).
+      destruct (IHn (probe + 1) _ Hi' idx' probe' H) as [C1 [C2 C3]]. split; auto. split; [lia|auto].
+    - inversion H; subst. split; auto. split; [lia|auto].
+  Qed.
+
+  Lemma gen_addloop_ok t bt hc : trep t bt -> forall n fuel probe idx, 0 <= idx < 2 ^ tlog t -> 0 <= probe ->
+    Z.of_nat n = 2 ^ tlog t - 1 - probe -> (n < fuel)%nat ->
+    Gen_HSAdd.pvAddNogrow_loop0 (fun b => IsFullG (bt b)) (fun i _ bc p => next i bc p) (fun _ i => i) fuel (2 ^ tlog t) 0 hc idx idx probe
+    = match addloopH n t probe idx with Some (i, p) => Ok (None, (i, i, p)) | None => Exn end.
+  Proof.
+    intros T. pose proof T as [Hl [Hlen R]]. assert (P63 : 2 ^ tlog t <= 2 ^ 63) by (apply Z.pow_le_mono_r; lia).
+    induction n; intros fuel probe idx Hi Hp Hn Hf; (destruct fuel as [|f]; [lia|]); rewrite Gen_HSAdd.pvAddNogrow_loop0_eq; cbn [add_loop];
+      destruct (R idx Hi) as [Rr _]; rewrite (n1_isfull_glue BS h maxCount reverse Hmc (getbH t idx) (bt idx) Rr);
+      destruct (isFull BS maxCount false (getbH t idx)) eqn:E; try reflexivity; cbv zeta;
+      rewrite (wrapU_small 64 (probe + 1)) by (change (2 ^ 64) with (2 * 2 ^ 63); lia).
+    - destruct (Z.geb_spec (probe + 1) (2 ^ tlog t)); [reflexivity|lia].
+    - destruct (Z.geb_spec (probe + 1) (2 ^ tlog t)); [lia|]. unfold bcount. apply IHn; try lia. apply next_range; auto.
+  Qed.
+
+  Lemma gen_addloc_ok t bt hc : trep t bt ->
+    gen_addloc (tlog t) bt hc =
+      match addloopH (Z.to_nat (2 ^ tlog t - 1)) t 0 (start hc (2 ^ tlog t)) with Some (i, p) => Ok (i, 0, p) | None => Exn end.
+  Proof.
+    intros T. pose proof T as [Hl _]. pose proof (two_pos (tlog t) ltac:(lia)) as P2. unfold gen_addloc, Gen_HSAdd.pvAddNogrow. cbv zeta.
+    rewrite (gen_addloop_ok t bt hc T (Z.to_nat (2 ^ tlog t - 1))); try lia; [|apply start_range; auto].
+    destruct (addloopH (Z.to_nat (2 ^ tlog t - 1)) t 0 (start hc (2 ^ tlog t))) as [[i p]|]; reflexivity.
   Qed.
 
   Lemma getb_setb_same' (t : table BS) i b : 0 <= i -> (Z.to_nat i < length (tbs t))%nat -> getbH (setb BS t i b) i = b.
@@ -199,9 +242,9 @@ Section TableN1.
                    In kv (items (getbH t' idx)) /\ 0 <= idx < 2 ^ tlog t
     end.
   Proof.
-    intros T. pose proof T as [Hl [Hlen R]]. unfold tadd, gtadd, bcount.
+    intros T. pose proof T as [Hl [Hlen R]]. unfold tadd, gtadd, bcount. cbv zeta. rewrite (gen_addloc_ok t bt (h (fst kv)) T).
     set (i0 := start (h (fst kv)) (2 ^ tlog t)). assert (Hi0 : 0 <= i0 < 2 ^ tlog t) by (apply start_range; auto).
-    destruct (gadd_loop_ok t bt T (Z.to_nat (2 ^ tlog t - 1)) 0 i0 Hi0) as [E Hr]. rewrite E.
+    pose proof (addloop_facts t bt T (Z.to_nat (2 ^ tlog t - 1)) 0 i0 Hi0) as Hr.
     destruct (addloopH (Z.to_nat (2 ^ tlog t - 1)) t 0 i0) as [[idx probe]|]; auto.
     destruct (Hr idx probe eq_refl) as [Hidx [Hp Hnf]].
     pose proof (two_pos (tlog t) ltac:(lia)) as P2.
@@ -301,7 +344,7 @@ Section TableN1.
   Qed.
 
   Theorem generation_bytes_all_histories log d0 os t k : 0 <= log <= maxLog -> hrun (newTable BS bs0 true log) os = Some t ->
-    exists bt, brun log (fun _ => Gen_OpenN1_ops.pvSetEmpty maxCount d0) os = Ok (Some bt) /\ trep t bt /\ gtfind t bt k = Some (tfindH t k).
+    exists bt, brun log (fun _ => Gen_OpenN1_ops.pvSetEmpty maxCount d0) os = Ok (Some bt) /\ trep t bt /\ gtfind t bt k = Ok (enc_pos (tfindH t k)).
   Proof.
     intros Hl H. destruct (brun_refines os _ _ t (trep_new log d0 Hl) H) as [bt [A C]]. exists bt. split; [exact A|]. split; auto.
     apply gtfind_refines; auto.
